@@ -1,14 +1,479 @@
 /-
-  Driver engine for Model::run_step with several hosts (prefix `mm.`). Stub; see harness/h_mmodel.cpp.
+  Driver engine for `Model::run_step` with SEVERAL hosts (prefix `mm.`; harness/h_mmodel.cpp).
+  Every host's rasters, the pool-level sums and the pest rasters are observed after every action
+  block (trace hook) and after every single landing of a spread step. Per line the engine
+  (1) evaluates the property predicates on the implementation's observed values (PROPFAIL <id>):
+      C16 pool sums (`poolSumsOK`), per landing `atMostOneSpec` / `multiEstablishSpec` / rejection of
+          a combined suitability above one, over the whole spread block `landSpreadOK`, deterministic
+          generation = sum over hosts of the competency-scaled products (`generatedSpec`);
+      C01 across hosts (`modelLedgerOK`) and per host and cell (`ledgerOK`), C02 / C03 per host
+          (`nonNeg`, `totalsOK`, `mortOK`; F20 taints a host as in the single-host engine);
+      C05 per host (`offSeasonFrame` over every step that is not a spread step, `stepForwardSpec`,
+          `arrivalsStayExposed`), C09 (`plan`), C10 / C11 / C12 per host through the single-host
+          engine's handlers (host h with its OWN mortality rate and lag), C17 on the merged pool;
+  (2) recomputes with the L1 model (`landAt` / `multiDisperserTo`, `modelGenerated`, the single-host
+      functions per host, `overpopulationStep` on the merged pool) and compares exactly (MISMATCH).
+  Line syntax: see harness/h_mmodel.cpp.
 -/
 import PopsModel.Driver.Util
+import PopsModel.Driver.HostEng
+import PopsModel.Driver.MultiEng
+import PopsModel.Model.MModelPred
 namespace Pops.Driver.MModelEng
-open Pops Pops.Driver
+open Pops Pops.Driver Pops.MM
 
 structure State where
-  dummy : Nat := 0
+  nHosts : Nat := 0
+  mt : ModelType := .si
+  latency : Nat := 0
+  rows : Nat := 0
+  cols : Nat := 0
+  mcfg : MultiCfg := { arrival := .infect, sto := true, pEst := 0 }
+  ps : List HostParams := []
+  tbl : MultiEng.State := {}            -- pest-host and competency table (parsed by the C16 engine)
+  cfg : StepCfg := default
+  treats : List (TreatSpec × TreatApp × List Rat) := []
+  hosts : MLand := []                   -- per host: its cells (observed)
+  suits : List (List (Int × Int)) := [] -- per host: its suitable-cell list
+  tainted : List Bool := []             -- per host: a treatment broke i = sum(mort) (F20)
+  stepStart : MLand := []
+  npop : List Int := []
+  w : Option (List Rat) := none
+  disp : List Int := []
+  est : List Int := []
+  spreadStart : CLand := []
+  spreadLand : CLand := []              -- cell-major state through the landings of the step
+  origins : List Nat := []              -- origin cell of every landing so far (reverse order)
+  estBy : List Nat := []                -- origin cells of the established landings
+  outTargets : List (Int × Int) := []   -- landings outside the study area (reverse order)
+  rejected : Bool := false              -- the last landing was rejected (combined suitability above one)
+  inSpread : Bool := false
 deriving Inhabited
 
-def handle (st : State) (_cmd : String) (_inp _obs : List String) : State × String := (st, "BADLINE")
+structure Obs where
+  ret : List String
+  hosts : MLand
+  suits : List (List (Int × Int))
+  inf : List Int
+  tot : List Int
+  extra : List (List String)
+
+def obs? (h : Nat) (toks : List String) : Option Obs :=
+  match HostEng.segments toks with
+  | ret :: segs =>
+    if segs.length < 2 * h + 2 then none else do
+    let hosts ← (segs.take h).mapM fun seg => seg.mapM HostEng.cell?
+    let suits ← ((segs.drop h).take h).mapM fun seg => seg.mapM HostEng.pair?
+    let inf ← parseInts? (segs.getD (2 * h) [])
+    let tot ← parseInts? (segs.getD (2 * h + 1) [])
+    some { ret, hosts, suits, inf, tot, extra := segs.drop (2 * h + 2) }
+  | [] => none
+
+def nCells (st : State) : Nat := st.rows * st.cols
+def grid (st : State) : Grid := { rows := st.rows, cols := st.cols }
+
+def envAt (st : State) (k : Nat) : MEnv :=
+  { n := st.npop.getD k 1, w := st.w.map fun l => l.getD k 1, pht := st.tbl.pht, comp := st.tbl.comp }
+
+def joinV (parts : List String) : String :=
+  match parts.filter (· != "ok") with
+  | [] => "ok"
+  | l => " ;; ".intercalate l
+
+/-- Verdict parts of a single-host handler run for host `h` (its C18 list-sum check relates a host's
+    own cell list to its own raster and does not apply to the pool's list: dropped). -/
+def hostParts (v : String) (h : Nat) : List String :=
+  ((v.splitOn " ;; ").filter fun p => p != "ok" && !(p.startsWith "PROPFAIL C18")).map fun p => p ++ s!" host={h}"
+
+def hostState (st : State) (h : Nat) (suit : List (Int × Int)) : HostEng.State :=
+  { mt := st.mt, latency := st.latency, rows := st.rows, cols := st.cols, cells := st.hosts.getD h [], suit := suit,
+    cfg := st.cfg, tainted := st.tainted.getD h false, treats := st.treats }
+
+def suitToks (s : List (Int × Int)) : List String := s.map fun (r, c) => s!"{r},{c}"
+
+/-- Run the single-host engine's handler `cmd` on host `h`: pre state from `st`, post state observed. -/
+def delegate (st : State) (h : Nat) (cmd : String) (inp ret : List String) (suitPre suitPost : List (Int × Int))
+    (post : List Cell) : HostEng.State × List String :=
+  let (s', v) := HostEng.handle (hostState st h suitPre) cmd inp
+    (ret ++ ["|"] ++ post.map HostEng.showCell ++ ["|"] ++ suitToks suitPost)
+  (s', hostParts v h)
+
+/-- Checks common to every snapshot: pool-level sums (C16) and the ledger over all hosts (C01). -/
+def common (st : State) (o : Obs) (cls : Ledger) : List String :=
+  let sums : List String :=
+    if o.inf.length != nCells st || !(poolSumsOK o.hosts o.inf o.tot) then
+      let k := ((List.range o.inf.length).find? fun k => !(sumsSpec (cellsAtM o.hosts k) o.inf[k]! o.tot[k]!)).getD 0
+      [s!"PROPFAIL C16 sums cell={k} infected_at={o.inf.getD k 0} total_hosts_at={o.tot.getD k 0} hosts={MultiEng.showCells (cellsAtM o.hosts k)}"]
+    else []
+  let ledger : List String :=
+    if !(modelLedgerOK cls st.hosts o.hosts) then
+      [s!"PROPFAIL C01 model_ledger hosts_before={MLand.hosts st.hosts} after={MLand.hosts o.hosts} died_before={MLand.died st.hosts} after={MLand.died o.hosts}"]
+    else []
+  sums ++ ledger
+
+def finish (st : State) (o : Obs) (parts : List String) : State × String :=
+  ({ st with hosts := o.hosts, suits := o.suits }, joinV parts)
+
+def suitIdx0 (st : State) : List Nat :=
+  ((st.suits.headD []).filter fun (r, c) => !((grid st).isOutside r c)).map fun (r, c) => (grid st).idx r c
+
+def shapeOK (st : State) (o : Obs) : Bool :=
+  o.hosts.length == st.nHosts && o.suits.length == st.nHosts && o.hosts.all (fun l => l.length == nCells st) &&
+  o.inf.length == nCells st && o.tot.length == nCells st
+
+def firstDiffC (a b : CLand) : Option Nat :=
+  (List.range (max a.length b.length)).find? fun k => a[k]? != b[k]?
+
+def count (l : List Nat) (k : Nat) : Nat := (l.filter (· == k)).length
+
+def handle (st : State) (cmd : String) (inp obsToks : List String) : State × String :=
+  match cmd, inp with
+  | "mm.begin", [h, mt, lat, rows, cols, arr, sto, pEst] =>
+    match parseNat? h, modelTypeFromString mt, parseNat? lat, parseNat? rows, parseNat? cols, arrivalFromString arr, parseRat? pEst with
+    | some h, .ok mt, some l, some r, some c, .ok arr, some pEst =>
+      let z := List.replicate (r * c) (0 : Int)
+      ({ nHosts := h, mt := mt, latency := l, rows := r, cols := c, mcfg := { arrival := arr, sto := sto = "1", pEst := pEst },
+         disp := z, est := z, tbl := { nHosts := h } }, "ok")
+    | _, _, _, _, _, _, _ => (st, "BADLINE")
+  | "mm.host", [k, sto, pEst, rr, _nm] =>
+    match parseNat? k, parseRat? pEst, parseRat? rr with
+    | some k, some pEst, some rr =>
+      if k ≠ st.ps.length then (st, "BADLINE host order")
+      else ({ st with ps := st.ps ++ [{ mt := st.mt, sto := sto = "1", pEst := pEst, rr := rr }] }, "ok")
+    | _, _, _ => (st, "BADLINE")
+  | "mm.nopht", _ => let (t, v) := MultiEng.handle st.tbl "mh.nopht" inp obsToks; ({ st with tbl := t }, v)
+  | "mm.nocomp", _ => let (t, v) := MultiEng.handle st.tbl "mh.nocomp" inp obsToks; ({ st with tbl := t }, v)
+  | "mm.readpht", _ => let (t, v) := MultiEng.handle st.tbl "mh.readpht" inp obsToks; ({ st with tbl := t }, v)
+  | "mm.readcomp", _ => let (t, v) := MultiEng.handle st.tbl "mh.readcomp" inp obsToks; ({ st with tbl := t }, v)
+  | "mm.cfg", _ =>
+    let (s', v) := HostEng.handle {} "hp.cfg" inp obsToks
+    ({ st with cfg := s'.cfg }, v)
+  | "mm.treatlist", _ =>
+    let (s', v) := HostEng.handle {} "hp.treatlist" inp obsToks
+    ({ st with treats := s'.treats }, v)
+  | "mm.env", [_step, npopTok, wTok] =>
+    match (HostEng.kv? npopTok "npop").bind HostEng.intList?, HostEng.kv? wTok "w" with
+    | some npop, some wt =>
+      let w := if wt == "none" then none else HostEng.ratList? wt
+      if npop.length ≠ nCells st then (st, "BADLINE npop")
+      else ({ st with npop := npop, w := w, rejected := false, inSpread := false }, "ok")
+    | _, _ => (st, "BADLINE")
+  | "mm.state", [] =>
+    match obs? st.nHosts obsToks with
+    | some o =>
+      if !(shapeOK st o) || st.ps.length ≠ st.nHosts then (st, "BADLINE shape") else
+      let st' := { st with hosts := o.hosts, suits := o.suits, stepStart := o.hosts, tainted := List.replicate st.nHosts false }
+      (st', joinV (common st' o .reclassify))
+    | none => (st, "BADLINE")
+  -- deterministic / stochastic generation: the disperser raster right after SpreadAction::generate
+  | "mm.gen", [detTok] =>
+    match HostEng.segments obsToks with
+    | [_, dispT] =>
+      match parseInts? dispT with
+      | none => (st, "BADLINE")
+      | some dispO =>
+        if dispO.length ≠ nCells st then (st, "BADLINE disp") else
+        let n := nCells st
+        let land := toCellMajor st.hosts n
+        let sidx := suitIdx0 st
+        let det := detTok == "det=1"
+        let env := envAt st
+        let neg := (List.range n).find? fun k => dispO[k]! < 0
+        let noInf := sidx.find? fun k => multiInfectedAt (land[k]!) ≤ 0 && ((land[k]!).all fun c => decide (c.i ≤ 0)) && dispO[k]! != 0
+        let specBad : Option String :=
+          if !det then none else
+          (List.zip sidx (generatedSpec env st.ps land sidx)).findSome? fun (k, sp) =>
+            match sp with
+            | some v => if dispO[k]! == v then none else
+                some s!"PROPFAIL C16 disperser_sum cell={k} dispersers={dispO[k]!} expected={v} (sum over hosts of lround(rate x weather x competency x infected)) hosts={MultiEng.showCells (land[k]!)}"
+            | none => some s!"MISMATCH mm.gen competency lookup rejected by the specification at cell={k}"
+        let modelBad : Option String :=
+          if !det then none else
+          match modelGenerated env st.ps land sidx with
+          | .ok l => if l == sidx.map (fun k => dispO[k]!) then none else some s!"MISMATCH mm.gen model={l}"
+          | .error e => some s!"MISMATCH mm.gen model={errTok e}"
+        let frame := (List.range n).find? fun k => !(sidx.contains k) && dispO[k]! != st.disp.getD k 0
+        let verdict :=
+          match neg, noInf, specBad, modelBad, frame with
+          | some k, _, _, _, _ => s!"PROPFAIL C02 nonneg dispersers cell={k} disp={dispO[k]!}"
+          | _, some k, _, _, _ => s!"PROPFAIL C04 dispersers_without_infection cell={k} disp={dispO[k]!}"
+          | _, _, some v, _, _ => v
+          | _, _, _, some v, _ => v
+          | _, _, _, _, some k => s!"MISMATCH mm.gen cell={k} outside the pool's cell list changed"
+          | _, _, _, _, _ => "ok"
+        let est' := sidx.foldl (fun l k => l.set k 0) st.est
+        ({ st with disp := dispO, est := est', spreadStart := land, spreadLand := land, origins := [], estBy := [], outTargets := [],
+                   rejected := false, inSpread := true }, verdict)
+    | _ => (st, "BADLINE")
+  -- one landing: mm.land j or,oc tr,tc v u pick => ret calls | cells of the target (one per host)
+  | "mm.land", [_j, orig, targ, vTok, uTok, pickTok] =>
+    match HostEng.pair? orig, HostEng.pair? targ, parseRat? vTok, parseRat? uTok, HostEng.segments obsToks with
+    | some (orow, ocol), some (tr, tc), some v, some u, [[ret, calls], cellT] =>
+      let g := grid st
+      let ko := g.idx orow ocol
+      let st1 := { st with origins := ko :: st.origins }
+      if g.isOutside tr tc then
+        let st2 := { st1 with outTargets := (tr, tc) :: st1.outTargets }
+        (st2, if ret == "out" && calls == "0" then "ok" else s!"PROPFAIL C04 outside_recorded target={tr},{tc} ret={ret} calls={calls}")
+      else
+      match cellT.mapM HostEng.cell? with
+      | none => (st, "BADLINE cells")
+      | some post =>
+        let k := g.idx tr tc
+        let pre := st.spreadLand.getD k []
+        if post.length ≠ pre.length then (st, "BADLINE hostcount") else
+        let env := envAt st k
+        let pick := (parseNat? pickTok).getD 0
+        let tester := if st.nHosts == 1 then v else u
+        let ws := MultiEng.weightsInDomain env pre
+        let model := multiDisperserTo st.mcfg st.ps env pre pick tester
+        let upd (s : State) : State := { s with spreadLand := s.spreadLand.set k post }
+        if (MultiEng.errOf? ret).isSome then
+          match ws with
+          | some l =>
+            if sumR l > 1 then
+              ({ upd st1 with rejected := ret == "err:invalid_argument" },
+               if ret == "err:invalid_argument" then (if post == pre then "ok" else "MISMATCH mm.land state changed by a rejected landing")
+               else s!"PROPFAIL C16 suitability_over_one wrong_error {ret}")
+            else (upd st1, s!"PROPFAIL C16 landing_rejected_in_domain {ret} total={sumR l} cell={k}")
+          | none =>
+            let m := MultiEng.exceptTok (fun _ => "ok") model
+            ({ upd st1 with rejected := ret == m }, if ret == m then "ok" else s!"MISMATCH mm.land model={m}")
+        else if ret == "out" then (upd st1, s!"PROPFAIL C04 outside_recorded target={tr},{tc} is inside the study area")
+        else
+          match parseInt? ret with
+          | none => (st, "BADLINE ret")
+          | some res =>
+            let st2 := upd (if res == 1 then { st1 with estBy := ko :: st1.estBy } else st1)
+            if !(atMostOneSpec st.ps pre post res) then
+              (st2, s!"PROPFAIL C16 at_most_one_host cell={k} ret={res} pre={MultiEng.showCells pre} post={MultiEng.showCells post}")
+            else
+              let inv := HostEng.invariants pre post (fun _ => .reclassify) false (fun _ => false)
+              let sei : Option String :=
+                if st.mt == .sei then (List.range pre.length).findSome? fun h =>
+                  let a := pre[h]!; let b := post[h]!
+                  if a.e.isEmpty || arrivalsStayExposed a b then none
+                  else some s!"PROPFAIL C05 arrival_not_exposed cell={k} host={h} pre={HostEng.showCell a} post={HostEng.showCell b}"
+                else none
+              let spec : Option String :=
+                match ws with
+                | none => none
+                | some l =>
+                  if sumR l > 1 then some s!"PROPFAIL C16 suitability_over_one not_rejected total={sumR l} ret={res} cell={k}"
+                  else if pre.length ≥ 2 && decide (sumR l > 0) && !(validPickB l v pick && pickTok != "-") then
+                    some s!"MISMATCH mm.land pick={pickTok} not possible for the weights {l}"
+                  else if !(multiEstablishSpec st.mcfg st.ps l pre pick tester res) then
+                    some s!"PROPFAIL C16 establish_event cell={k} ret={res} total={sumR l} weights={l} pick={pick} tester={tester}"
+                  else none
+              match inv, sei, spec with
+              | some x, _, _ => (st2, x ++ s!" (hosts of cell {k})")
+              | _, some x, _ => (st2, x)
+              | _, _, some x => (st2, x)
+              | none, none, none =>
+                -- exact replay through the model of the landing (`landAt`) and the generator calls
+                match landAt st.mcfg st.ps st.spreadLand { k := k, env := env, pick := pick, u := tester }, model with
+                | .ok (land', r), .ok (_, _, used) =>
+                  if r ≠ res then (st2, s!"MISMATCH mm.land ret model={r}")
+                  else if land' != st.spreadLand.set k post then (st2, s!"MISMATCH mm.land cells model={MultiEng.showCells (land'.getD k [])}")
+                  else if toString used ≠ calls then (st2, s!"MISMATCH mm.land generator calls model={used} observed={calls}")
+                  else (st2, "ok")
+                | .error e, _ => (st2, s!"MISMATCH mm.land model={errTok e}")
+                | _, .error e => (st2, s!"MISMATCH mm.land model={errTok e}")
+    | _, _, _, _, _ => (st, "BADLINE")
+  | "mm.plan", [stepTok] =>
+    let anyTaint := st.tainted.any id
+    let hst : HostEng.State := { cfg := st.cfg, tainted := anyTaint, treats := st.treats, rasterEntry := false }
+    -- a landing rejected because the combined suitability exceeds one ends the step with invalid_argument
+    let legitReject : Bool :=
+      match parseNat? stepTok, obsToks with
+      | some step, [status, tr] =>
+        st.rejected && status == "err:invalid_argument" &&
+          (match HostEng.trace? tr with
+           | some observed => observed.map (·.1) == ((plan st.cfg step).map (·.1)).takeWhile (· != .spread)
+           | none => false)
+      | _, _ => false
+    let vp := if legitReject then "ok" else (HostEng.planVerdict hst stepTok obsToks).2
+    -- C05 per host, state-based: over a step that is not a spread step no exposed cohort ages, nothing matures
+    let off : List String :=
+      match parseNat? stepTok, obsToks with
+      | some step, "ok" :: _ =>
+        if st.mt == .sei && !(schedAt st.cfg.spreadSched step) then
+          (List.range st.nHosts).filterMap fun h =>
+            let a := st.stepStart.getD h []; let b := st.hosts.getD h []
+            if offSeasonFrame a b then none else
+              let k := ((List.range b.length).find? fun k => !(exposedFrozen a[k]! b[k]!)).getD 0
+              some s!"PROPFAIL C05 cohorts_aged_outside_spread_step step={step} host={h} cell={k} start={HostEng.showCell a[k]!} end={HostEng.showCell b[k]!}"
+        else []
+      | _, _ => []
+    ({ st with stepStart := st.hosts, inSpread := false }, joinV (vp :: off))
+  | _, _ =>
+    match obs? st.nHosts obsToks with
+    | none => (st, "BADLINE obs")
+    | some o =>
+      if !(shapeOK st o) then (st, "BADLINE shape") else
+      let H := st.nHosts
+      let pool := st.suits.headD []
+      let sameSuits : List String := if o.suits == st.suits then [] else [s!"MISMATCH {cmd} suitable-cell lists changed"]
+      match cmd, inp with
+      | "mm.lethal", _ =>
+        let parts := (List.range H).flatMap fun h => (delegate st h "hp.lethal" inp o.ret pool (o.suits.headD []) (o.hosts.getD h [])).2
+        finish st o (common st o .reclassify ++ parts ++ sameSuits)
+      | "mm.survival", _ =>
+        let parts := (List.range H).flatMap fun h => (delegate st h "hp.survival" inp o.ret pool (o.suits.headD []) (o.hosts.getD h [])).2
+        finish st o (common st o .reclassify ++ parts ++ sameSuits)
+      | "mm.stepfwd", [_] =>
+        let parts := (List.range H).flatMap fun h => (delegate st h "hp.stepfwd" inp o.ret (st.suits.getD h []) (o.suits.getD h []) (o.hosts.getD h [])).2
+        finish st o (common st o .reclassify ++ parts ++ sameSuits)
+      -- Treatments::manage on every host, each over its own cell list
+      | "mm.manage", [stepTok] =>
+        let rs := (List.range H).map fun h => delegate st h "hp.manage" inp o.ret (st.suits.getD h []) (o.suits.getD h []) (o.hosts.getD h [])
+        let tainted := rs.map fun r => r.1.tainted
+        -- C10 on every host: when exactly one treatment event is due at this step, every host's cells in
+        -- its own cell list show that treatment's effect (the specification predicates of C10)
+        let step := (parseNat? stepTok).getD 0
+        let due := st.treats.filter fun t => t.1.eventAt step != .nothing
+        let c10 : List String :=
+          match due with
+          | [(spec, app, coefs)] =>
+            (List.range H).filterMap fun h =>
+              let g := grid st
+              ((st.suits.getD h []).filter fun (r, c) => !(g.isOutside r c)).findSome? fun (r, c) =>
+                let k := g.idx r c
+                let a := (st.hosts.getD h [])[k]!; let b := (o.hosts.getD h [])[k]!
+                let coef := coefs.getD k 0
+                let all := app == .allInfected
+                if !(a.consistent && decide (0 ≤ coef) && decide (coef ≤ 1)) then none
+                else if spec.eventAt step == .apply then
+                  (if spec.pesticide then
+                     (if pesticideTreatSpec coef all a b then none else some s!"PROPFAIL C10 pesticide_share host={h} cell={k} coef={coef} pre={HostEng.showCell a} post={HostEng.showCell b}")
+                   else (if simpleTreatSpec coef all a b then none else some s!"PROPFAIL C10 removal_share host={h} cell={k} coef={coef} pre={HostEng.showCell a} post={HostEng.showCell b}"))
+                else (if pesticideEndSpec coef a b then none else some s!"PROPFAIL C10 pesticide_end host={h} cell={k} pre={HostEng.showCell a} post={HostEng.showCell b}")
+          | _ => []
+        let (st', v) := finish st o (common st o .removal ++ c10 ++ rs.flatMap (·.2) ++ sameSuits)
+        ({ st' with tainted := tainted }, v)
+      -- Mortality: host h with the rate and lag of ITS row of the pest-host table, over the pool's cell list
+      | "mm.mortality", [] =>
+        match st.tbl.pht with
+        | none => finish st o ["MISMATCH mm.mortality without a pest-host table"]
+        | some t =>
+          let parts := (List.range H).flatMap fun h =>
+            match t.rate[h]?, t.lag[h]? with
+            | some rate, some lag =>
+              let p := (delegate st h "hp.mortality" [toString rate, toString lag] o.ret pool (o.suits.headD []) (o.hosts.getD h [])).2
+              p ++ (if p.any (fun x => x.startsWith "PROPFAIL C11 mortality") then
+                      [s!"PROPFAIL C16 per_host_mortality host={h} does not follow its own table row rate={rate} lag={lag}"] else [])
+            | _, _ => [s!"MISMATCH mm.mortality host={h} has no table row"]
+          -- the model of the whole action (`modelMortality`, theorem C16_model_mortality_per_host)
+          let whole : List String :=
+            if !parts.isEmpty then [] else
+            match modelMortality t (suitIdx0 st) 0 st.hosts with
+            | .ok m' => if m' == o.hosts then [] else ["MISMATCH mm.mortality model of the action over all hosts differs"]
+            | .error e => [s!"MISMATCH mm.mortality model={errTok e}"]
+          finish st o (common st o .death ++ parts ++ whole ++ sameSuits)
+      -- HostMovement: forwarded to the first host only
+      | "mm.movement", _ =>
+        let p0 := (delegate st 0 "hp.movement" inp o.ret (st.suits.getD 0 []) (o.suits.getD 0 []) (o.hosts.getD 0 [])).2
+        let others := (List.range H).filterMap fun h =>
+          if h == 0 then none
+          else if o.hosts.getD h [] == st.hosts.getD h [] && o.suits.getD h [] == st.suits.getD h [] then none
+          else some s!"MISMATCH mm.movement host={h} changed (the pool forwards host moves to the first host only)"
+        finish st o (common st o .reclassify ++ p0 ++ others)
+      | "mm.after", [action, _, _] =>
+        finish st o (common st o .reclassify ++
+          (if o.hosts == st.hosts && o.suits == st.suits then [] else [s!"PROPFAIL C09 {action}_changed_hosts"]))
+      -- end of SpreadAction: the state must be the one the landings produced
+      | "mm.spread", [] =>
+        match o.extra with
+        | [dispT, estT, outT] =>
+          match parseInts? dispT, parseInts? estT, outT.mapM HostEng.pair? with
+          | some dispO, some estO, some outO =>
+            let n := nCells st
+            let obsC := toCellMajor o.hosts n
+            let sidx := suitIdx0 st
+            let origins := st.origins.reverse
+            let expOrigins := sidx.flatMap fun k => List.replicate (st.disp.getD k 0).toNat k
+            let moved : List String :=
+              match firstDiffC st.spreadLand obsC with
+              | some k => [s!"PROPFAIL C16 at_most_one_host cell={k} changed outside the landings: after_last_landing={MultiEng.showCells (st.spreadLand.getD k [])} end_of_spread={MultiEng.showCells (obsC.getD k [])}"]
+              | none => []
+            let agg : List String :=
+              if landSpreadOK st.spreadStart obsC then [] else
+                let k := ((List.range n).find? fun k => !(cellSpreadOK (st.spreadStart.getD k []) (obsC.getD k []))).getD 0
+                [s!"PROPFAIL C16 landing_aggregate cell={k} before={MultiEng.showCells (st.spreadStart.getD k [])} after={MultiEng.showCells (obsC.getD k [])}"]
+            let c04 : List String :=
+              if dispO != st.disp then ["MISMATCH mm.spread disperser raster changed during dispersal"]
+              else if !st.rejected && origins != expOrigins then [s!"PROPFAIL C04 one_target_per_disperser landings={origins.length} dispersers={expOrigins.length}"]
+              else if outO != st.outTargets.reverse then [s!"PROPFAIL C04 outside_recorded observed={outO.length} expected={st.outTargets.length}"]
+              else
+                match (List.range n).find? fun k => estO[k]! != (if sidx.contains k then (count st.estBy k : Int) else st.est.getD k 0) with
+                | some k => [s!"PROPFAIL C04 established_count cell={k} established={estO[k]!} landings_established={count st.estBy k}"]
+                | none =>
+                  if (List.range n).any fun k => estO[k]! > dispO[k]! && sidx.contains k then ["PROPFAIL C04 established_le_generated"]
+                  else if sLostTotal st.spreadStart obsC != sumL (sidx.map fun k => estO[k]!) then
+                    [s!"PROPFAIL C04 ledger susceptible_consumed={sLostTotal st.spreadStart obsC} established={sumL (sidx.map fun k => estO[k]!)}"]
+                  else []
+            let (st', v) := finish st o (common st o .reclassify ++ moved ++ agg ++ c04 ++ sameSuits)
+            ({ st' with est := estO, inSpread := false }, v)
+          | _, _, _ => (st, "BADLINE spread-obs")
+        | _ => (st, "BADLINE spread")
+      -- MoveOverpopulatedPests through the pool: the pool acts as ONE merged host (sums of S and I)
+      | "mm.overpop", [thr, leave, drT, dcT] =>
+        match parseRat? thr, parseRat? leave, o.extra with
+        | some thr, some leave, [outT] =>
+          match outT.mapM HostEng.pair? with
+          | none => (st, "BADLINE")
+          | some outO =>
+            let n := nCells st
+            let g := grid st
+            let perHost : List String := (List.range H).flatMap fun h =>
+              let a := st.hosts.getD h []; let b := o.hosts.getD h []
+              let inv := match HostEng.invariants a b (fun _ => .reclassify) true (fun _ => false) with
+                | some x => [x ++ s!" host={h}"] | none => []
+              let frame := ((List.range n).find? fun k => { b[k]! with s := a[k]!.s, i := a[k]!.i } != a[k]!).map
+                fun k => s!"PROPFAIL C17 overpopulation_changed_other_classes host={h} cell={k} pre={HostEng.showCell a[k]!} post={HostEng.showCell b[k]!}"
+              inv ++ frame.toList
+            let pre := mergedLand st.hosts n
+            let post := mergedLand o.hosts n
+            let departing := pool.filter fun (r, c) => !(g.isOutside r c) && departs thr (pre[g.idx r c]!)
+            let stay : List String := ((List.range n).findSome? fun k =>
+              let isDep := departing.any fun (r, c) => g.idx r c == k
+              if !isDep && (post[k]!).i < (pre[k]!).i then
+                some s!"PROPFAIL C17 departure_rule cell={k} pool_infected_before={(pre[k]!).i} after={(post[k]!).i} pool_susceptible_before={(pre[k]!).s}"
+              else none).toList
+            let rule : List String :=
+              if !stay.isEmpty then stay else
+              match parseInt? drT, parseInt? dcT with
+              | some dr, some dc =>
+                let targets := departing.map fun (r, c) => (r + dr, c + dc)
+                let expOut := (departing.zip targets).flatMap fun ((r, c), (tr, tc)) =>
+                  if g.isOutside tr tc then List.replicate (leavingCount leave (pre[g.idx r c]!)).toNat (tr, tc) else []
+                if outO != expOut then [s!"PROPFAIL C17 outside_recorded observed={outO.length} expected={expOut.length}"]
+                else
+                  let (cells', _, _) := overpopulationStep g pool pre { disp := [], est := [], outside := [] } thr leave targets
+                  if !(mergedSame cells' post) then
+                    let k := ((List.range n).find? fun k => (cells'[k]!).s != (post[k]!).s || (cells'[k]!).i != (post[k]!).i).getD 0
+                    [s!"MISMATCH mm.overpop pool cell={k} model s={(cells'[k]!).s} i={(cells'[k]!).i} observed s={(post[k]!).s} i={(post[k]!).i}"]
+                  else
+                    -- C16 split: a cell that only sends keeps every host's loss within its infected,
+                    -- a cell that only receives keeps every host's gain within its susceptible
+                    let tIdx := (targets.filter fun (r, c) => !(g.isOutside r c)).map fun (r, c) => g.idx r c
+                    let sIdx := departing.map fun (r, c) => g.idx r c
+                    ((List.range n).findSome? fun k =>
+                      (List.range H).findSome? fun h =>
+                        let a := (st.hosts.getD h [])[k]!; let b := (o.hosts.getD h [])[k]!
+                        if sIdx.contains k && !(tIdx.contains k) && (b.i > a.i || b.i < 0) then
+                          some s!"PROPFAIL C16 split_bounded pests_from cell={k} host={h} infected_before={a.i} after={b.i}"
+                        else if tIdx.contains k && !(sIdx.contains k) && (b.s > a.s || b.s < 0) then
+                          some s!"PROPFAIL C16 split_bounded pests_to cell={k} host={h} susceptible_before={a.s} after={b.s}"
+                        else none).toList
+              | _, _ =>
+                let left := sumL (departing.map fun (r, c) => leavingCount leave (pre[g.idx r c]!))
+                let before := sumL (pre.map (·.i)); let after := sumL (post.map (·.i))
+                if !outO.isEmpty then [s!"PROPFAIL C17 uniform_destination_outside recorded={outO.length}"]
+                else if after > before || after < before - left then [s!"PROPFAIL C17 leaving_count infected_before={before} after={after} left={left}"]
+                else []
+            finish st o (common st o .reclassify ++ perHost ++ rule ++ sameSuits)
+        | _, _, _ => (st, "BADLINE")
+      | _, _ => (st, "BADLINE cmd")
 
 end Pops.Driver.MModelEng
